@@ -17,7 +17,7 @@ import (
 // strictly increasing keys. It returns nil when all of that holds.
 func VerifCheck[K cmp.Ordered, V any](m Map[K, V]) error {
 	var (
-		prev    K
+		prev     K
 		havePrev bool
 	)
 	var walk func(n *node[K, V]) (height, size int, err error)
